@@ -207,7 +207,7 @@ def main():
 
     # 2. verify
     modules = None if tier == 'thorough' else cfg['modules']
-    rlimit = 40 if tier == 'quick' else 80
+    rlimit = 150 if tier == 'quick' else 300
     res = run_verus(out, modules, rlimit, seed)
     failures, inconclusive = classify(res, report)
     if inconclusive and 'resource limit' in inconclusive:
